@@ -240,7 +240,9 @@ def _wrappers(cx: Ctx, env, ty, depth, inner_fn):
         lit = gen(cx, env, (kind, tuple(tys)), depth - 1)
         return f"{lit}[{pos}]"
     if c == 2 and cfg.ifexp and ty[0] in ("I", "F", "B", "O"):
-        return f"({inner_fn()} if {gen(cx, env, B, depth - 1)} else {gen(cx, env, ty, depth - 1)})"
+        # the test is a boolean expression, or a constant of another type (python's truthiness: a '0 means off' setting)
+        test = cx.pick(["1", "2", "0", "1.5", "0.0", "'on'", "''"]) if cx.chance(2) else gen(cx, env, B, depth - 1)
+        return f"({inner_fn()} if {test} else {gen(cx, env, ty, depth - 1)})"
     if c == 3 and cfg.first and (cfg.first_on_seq or ty[0] != "S"):
         return _first(cx, _seq(cx, env, ty, depth - 1))
     if c in (4, 7, 8) and cfg.odd_selectors:
@@ -503,6 +505,10 @@ def any_seq(cx: Ctx, env, depth):
 
 
 def _called_lambda(cx: Ctx, env, ty, depth):
+    if ty in (I, F) and cx.chance(1):
+        # a parameterless called lambda (what an inlined zero-argument helper looks like), with a use of the variables in scope
+        # to its right
+        return f"((lambda: {gen(cx, env, ty, depth - 1)})() + {gen(cx, env, ty, 0)})"
     if cx.cfg.higher_order and ty == I and cx.chance(2) and seq_paths(cx, env):
         # a sequence-valued argument (itself a Where / Select) that the called lambda uses twice as the source of further operators
         se, sty = cx.pick(seq_paths(cx, env))
